@@ -609,8 +609,44 @@ def generate(rng, tier):
     for _ in range(40 if tier == 'quick' else 400):
         n = rng.choice([1, 2, 3, 7, 16, 100])
         cases.append({'kind': 'batch', 'k': rng.choice([n * rng.randrange(0, 4), rng.randrange(0, 250)]), 'n': n})
+    # the column layer alone: create_record on row dicts, then load_from_file on a file holding that record batch
+    cases += gen_cols(random.Random(rng.randrange(2 ** 62)), tier)
     # scale family (after everything else, from a stream of its own derived from rng)
     cases += gen_scale(random.Random(rng.randrange(2 ** 62)), tier)
+    return cases
+
+
+def mk_cols(rng, ncols, nrows, missing=False, extra=True, order=None):
+    """a 'cols' case: schema names and dict keys are small integers (column 'c<i>'), values small integers; every
+    row holds all schema names (in schema order, reversed or shuffled per row), some rows hold extra keys; with
+    `missing` one row lacks one schema name (create_record must raise KeyError)"""
+    names = rng.sample(range(0, 9), ncols)
+    others = [x for x in range(0, 12) if x not in names]
+    order = order or rng.choice(['schema', 'reversed', 'shuffled'])
+    rows = []
+    for i in range(nrows):
+        ks = list(names)
+        if order == 'reversed':
+            ks.reverse()
+        elif order == 'shuffled':
+            rng.shuffle(ks)
+        if extra and rng.random() < 0.4:
+            for x in rng.sample(others, rng.randrange(1, 3)):
+                ks.insert(rng.randrange(0, len(ks) + 1), x)
+        rows.append([[k, rng.randrange(0, 60)] for k in ks])
+    if missing and nrows:
+        j = rng.randrange(nrows)
+        drop = rng.choice(names)
+        rows[j] = [kv for kv in rows[j] if kv[0] != drop]
+    return {'kind': 'cols', 'names': names, 'rows': rows, 'm': rng.choice([1, 2, 3, 7, 1024]), 'order': order,
+            'missing': bool(missing and nrows)}
+
+
+def gen_cols(rng, tier):
+    cases = [mk_cols(rng, 2, 3, order='schema', extra=False), mk_cols(rng, 2, 3, order='reversed'),
+             mk_cols(rng, 3, 4, missing=True), mk_cols(rng, 1, 0), mk_cols(rng, 1, 5), mk_cols(rng, 4, 1)]
+    for _ in range(60 if tier == 'quick' else 600):
+        cases.append(mk_cols(rng, rng.randrange(1, 6), rng.randrange(0, 9), missing=rng.random() < 0.15))
     return cases
 
 
@@ -625,6 +661,8 @@ def run_impl(case):
                 'end': r['end']}
     import pyarrow.parquet as pq
     import rxsci.container.parquet as parquet
+    if case['kind'] == 'cols':
+        return run_cols(case, parquet, pq)
     os.makedirs(WORKDIR, exist_ok=True)
     ks = run_counts(case)
     multi = bool(case.get('runs'))
@@ -741,6 +779,50 @@ def run_impl(case):
     return out
 
 
+def run_cols(case, parquet, pq):
+    import io
+    import pyarrow as pa
+    names = ['c%d' % n for n in case['names']]
+    schema = pa.schema([(n, pa.int64()) for n in names])
+    data = [{'c%d' % k: v for k, v in row} for row in case['rows']]
+    try:
+        rb = parquet.create_record(schema)(data)
+    except Exception as e:       # KeyError today; any exception is a refusal of the batch (None in the model)
+        return {'cols': None, 'rows': [], 'load_end': [], 'create_record_raised': type(e).__name__}
+    cols = [rb.column(i).to_pylist() for i in range(rb.num_columns)]
+    buf = io.BytesIO()
+    w = pq.ParquetWriter(buf, schema)
+    w.write(rb)
+    w.close()
+    got, lend = [], []
+    parquet.load_from_file(io.BytesIO(buf.getvalue()), batch_size=case['m']).subscribe(
+        on_next=got.append, on_error=lambda e: lend.append('error:' + type(e).__name__),
+        on_completed=lambda: lend.append('completed'))
+    return {'cols': cols, 'column_names': list(rb.schema.names),
+            'rows': [[[int(k[1:]), v] for k, v in d.items()] for d in got], 'load_end': lend}
+
+
+def judge_cols(case, obs):
+    """model-free: the columns are the values under each schema name, row by row; the loaded rows hold exactly the
+    schema names in schema order with those values; KeyError exactly when a row lacks a schema name"""
+    names = case['names']
+    dicts = [dict((k, v) for k, v in row) for row in case['rows']]
+    lacking = any(n not in d for d in dicts for n in names)
+    if lacking:
+        if obs['cols'] is not None:
+            return {'sig': 'parquet:cols-no-error', 'what': 'a row lacks a schema column but create_record returned %r' % (obs['cols'],)}
+        return None
+    if obs['cols'] is None:
+        return {'sig': 'parquet:cols-error', 'what': 'create_record raised ' + str(obs.get('create_record_raised')) + ' although every row has every schema column'}
+    want_cols = [[d[n] for d in dicts] for n in names]
+    if obs['cols'] != want_cols or obs.get('column_names') != ['c%d' % n for n in names]:
+        return {'sig': 'parquet:cols-columns', 'what': 'record batch columns %r %r, expected %r' % (obs.get('column_names'), obs['cols'], want_cols)}
+    want_rows = [[[n, d[n]] for n in names] for d in dicts]
+    if obs['load_end'] != ['completed'] or obs['rows'] != want_rows:
+        return {'sig': 'parquet:cols-rows', 'what': 'load gave %r %r, expected %r' % (obs['load_end'], obs['rows'][:6], want_rows[:6])}
+    return None
+
+
 def judge(case, k, obs, run=None):
     n = case['n']
     at = '' if run is None else '@resub'
@@ -790,6 +872,10 @@ def judge(case, k, obs, run=None):
 def oracle(case, obs):
     """C20 as written, no model: the file holds exactly the source rows once each in order; load returns them.
     Re-subscription cases: after EACH run the file holds exactly the rows of that run."""
+    if case['kind'] == 'cols':
+        if 'raised' in obs:
+            return {'sig': 'parquet:cols-raised', 'what': 'raised %s: %s' % (obs['raised'], obs.get('msg'))}
+        return judge_cols(case, obs)
     if case['kind'] != 'pq':
         return None
     if 'raised' in obs:
@@ -810,7 +896,8 @@ def nontrivial(case, obs):
 
 
 def describe(cases, obs):
-    d = {'pq': 0, 'batch': 0, 'max_rows': 0, 'exact_multiples': 0, 'empty': 0, 'fewer_than_batch': 0,
+    d = {'pq': 0, 'batch': 0, 'cols': 0, 'cols_missing_field_cases': 0, 'cols_rows_with_extra_keys': 0,
+         'cols_key_order': {}, 'cols_max_columns': 0, 'cols_max_rows': 0, 'cols_empty_batches': 0, 'max_rows': 0, 'exact_multiples': 0, 'empty': 0, 'fewer_than_batch': 0,
          'equal_to_batch': 0, 'comp': {}, 'schema': {}, 'io': {}, 'with_row_group_size': 0, 'dump_batch_sizes': {},
          'distinct_row_counts': 0, 'max_batches_written': 0, 'repeated_content': {},
          'cases_with_a_batch_equal_to_the_previous_batch': 0, 'equal_consecutive_batches': 0,
@@ -827,6 +914,13 @@ def describe(cases, obs):
     ks = set()
     for c, o in zip(cases, obs):
         d[c['kind']] += 1
+        if c['kind'] == 'cols':
+            d['cols_missing_field_cases'] += 1 if c['missing'] else 0
+            d['cols_rows_with_extra_keys'] += sum(1 for r in c['rows'] if len(r) > len(c['names']))
+            d['cols_key_order'][c['order']] = d['cols_key_order'].get(c['order'], 0) + 1
+            d['cols_max_columns'] = max(d['cols_max_columns'], len(c['names']))
+            d['cols_max_rows'] = max(d['cols_max_rows'], len(c['rows']))
+            d['cols_empty_batches'] += 1 if not c['rows'] else 0
         if c['kind'] != 'pq':
             continue
         k, n = c['k'], c['n']
@@ -897,11 +991,15 @@ def describe(cases, obs):
 # ---------------------------------------------------------------------------------------------
 def coq_preamble():
     return ('From Coq Require Import List ZArith NArith Bool.\nImport ListNotations.\n'
-            'From RxVerif Require Import Base.Corr Container.Parquet Container.C20Corr.\n')
+            'From RxVerif Require Import Base.Corr Container.Parquet Container.ParquetCols Container.C20Corr.\n')
 
 
 CTYPE = 'c20case'
 CHECKER = 'c20_check'
+
+
+def c_pairs(kvs):
+    return c_list(['(%s, %s)' % (c_N(k), c_N(v)) for k, v in kvs])
 
 
 def c_runs(rs):
@@ -913,6 +1011,15 @@ def coq_term(case, obs):
         return 'CRaised'
     if not in_model(case):
         return 'CSkip'
+    if case['kind'] == 'cols':
+        def nat(v):
+            return isinstance(v, int) and not isinstance(v, bool) and v >= 0
+        if obs['cols'] is not None and not (all(nat(v) for c in obs['cols'] for v in c)
+                                            and all(nat(k) and nat(v) for r in obs['rows'] for k, v in r)):
+            return 'CRaised'        # something that is not a small integer came back: not expressible, never right
+        return 'CCols %s %s %s %s' % (
+            c_nlist(case['names']), c_list([c_pairs(r) for r in case['rows']]),
+            c_opt(obs['cols'], lambda cs: c_list([c_nlist(c) for c in cs])), c_list([c_pairs(r) for r in obs['rows']]))
     if case['kind'] == 'batch':
         return 'CBatch %s %s %s' % (c_N(case['k']), c_N(case['n']),
                                     c_list([c_list([c_nlist(b) for b in st]) for st in obs['steps'] + [obs['final']]])
@@ -924,6 +1031,8 @@ def coq_term(case, obs):
 
 
 def coq_model_expr(case):
+    if case['kind'] == 'cols':
+        return 'create_cols N N N.eqb %s %s' % (c_nlist(case['names']), c_list([c_pairs(r) for r in case['rows']]))
     if case['kind'] == 'batch':
         return 'batch_timed N %d (idx_rows %s)' % (case['n'], c_N(case['k']))
     k = min(case['k'], 60)      # printed for the reader of a replay file; the check itself uses the full k
@@ -949,7 +1058,19 @@ CLAIM = {
             '(so no duplicate final batch when n divides the row count); create_record with per-call column buffers '
             'returns exactly its batch; the file (= the record batches appended) holds the source rows once each in '
             'order; re-batching at load returns them. The shared-buffer closure of the unrepaired code is refuted in '
-            'the model. These are theorems about a model in which a record batch is the list of its rows and reading '
+            'the model. A second layer models the COLUMN logic literally (ParquetCols.v): rows are dicts, create_record '
+            'runs its two loops over the schema names and appends to one list per column, load rebuilds the rows with '
+            'dict(zip(names, row)) over zip of the columns; proved for ALL schemas with at least one column, ALL row '
+            'lists and ALL batch sizes: the columns are the transposition of the rows projected on the schema names '
+            '(one column per name, one entry per row), create_record refuses the batch exactly when a row lacks a '
+            'schema name, zip over the columns gives the projected rows back, the rebuilt row has exactly the schema '
+            'names as keys in schema order each with the value of the source row, key order and extra keys of the '
+            'pushed dict are irrelevant, a row pushed with exactly the schema names in schema order comes back '
+            'identical, and batching + transposing + rebuilding returns every source row rebuilt, once, in order '
+            '(C20_cols_*); create_record is called directly on generated row dicts (any key order, extra keys, missing '
+            'fields) and load_from_file on a file holding exactly that record batch, both compared with the Coq '
+            'functions on every run (CCols). '
+            'These are theorems about a model in which a record batch is the list of its rows (or of its columns) and reading '
             'a file returns the record batches written, in order: that pyarrow behaves so (for compression none/'
             'snappy/gzip/zstd, int/string/float/struct/list columns, path and file object) is TESTED by the '
             'correspondence run, not proved: real files are written by dump_to_file, the row counts of the row '
@@ -968,5 +1089,5 @@ CLAIM = {
             'pyarrow (oracle, not modelled); rs.ops.scan/filter/map plumbing and RxPY synchronous delivery are modelled, '
             'not verified. Encryption properties are not exercised.',
     'technique': 'Coq proof (induction over the rows with the scan state as invariant; div/mod uniqueness for the size '
-                 'sequence) + vm_compute correspondence on real parquet files',
+                 'sequence; transposition lemmas for the column layer) + vm_compute correspondence on real parquet files',
 }
